@@ -36,6 +36,16 @@ class Runner:
         data = (text if text.endswith("\n") else text + "\n") + "end\n"
         try:
             self.p.stdin.write(data.encode())
+            # the runner enforces the case's own time-out; this guard only covers a runner that stops answering at all
+            import select, re as _re
+            m = _re.search(r"^set timeout_ms (\d+)", text, _re.M)
+            guard = (int(m.group(1)) / 1000.0 if m else 60.0) * 2 + 120.0
+            rd, _, _ = select.select([self.p.stdout], [], [], guard)
+            if not rd:
+                try: self.p.kill()
+                except Exception: pass
+                self.p = None
+                return {"v": "timeout", "sig": "timeout", "detail": "runner did not answer within %.0f s (killed and restarted)" % guard, "f": {}}
             line = self.p.stdout.readline()
         except (BrokenPipeError, OSError):
             line = b""
@@ -270,12 +280,20 @@ def run_check(modname, tier, seed, replay=None):
     variants = budget.get("variants", ["asan"])
     if os.environ.get("VERIF_VARIANTS"):      # experimentation knob (not used by the registered commands)
         variants = os.environ["VERIF_VARIANTS"].split(","); budget = dict(budget); budget.pop("variant_share", None)
+    notes = []
+    built = []
     for v in variants:
-        build(v)
+        try:
+            build(v); built.append(v)
+        except SystemExit as e:
+            # the default variant must build; a secondary configuration (OpenMP, 64-bit indices, ...) that does not compile is
+            # recorded and left out, the search goes on with the others
+            if v == variants[0]: raise
+            notes.append("variant %s does not build on this tree and was left out: %s" % (v, e))
+    variants = built
     known = load_known()
     violations = []; known_lines = {}
     total = Stats()
-    notes = []
 
     # ---- replay mode
     if replay:
